@@ -3,6 +3,7 @@ import datetime as dt
 
 from mindsdb_sql.parser.ast.base import ASTNode
 from mindsdb_sql.parser.utils import indent
+from mindsdb_sql.parser.ast.select.constant import Constant
 
 
 class CreateJob(ASTNode):
@@ -67,15 +68,15 @@ class CreateJob(ASTNode):
 
         start_str = ''
         if self.start_str is not None:
-            start_str = f" START '{self.start_str}'"
+            start_str = f" START {Constant(str(self.start_str)).to_string()}"
 
         end_str = ''
         if self.end_str is not None:
-            end_str = f" END '{self.end_str}'"
+            end_str = f" END {Constant(str(self.end_str)).to_string()}"
 
         repeat_str = ''
         if self.repeat_str is not None:
-            repeat_str = f" EVERY '{self.repeat_str}'"
+            repeat_str = f" EVERY {Constant(str(self.repeat_str)).to_string()}"
 
         if_query_str = ''
         if self.if_query_str is not None:
